@@ -10,7 +10,7 @@ WEIGHTS = dict(SetType=1, Copy=6, DataRoundTrip=4, SetPlatform=3, SetPortNr=2, S
 
 def run(tier, seed):
     rng = random.Random(seed * 236887691 + 16)
-    mcs = [core.mc("MC_Acl", "MC_Acl" if tier == "quick" else "MC_Acl_4")]
+    mcs = [core.mc("MC_Acl", "MC_Acl" if tier == "quick" else "MC_Acl_4"), core.mc("MC_Acl", "MC_Acl_deep")]
     n = 1000 if tier == "quick" else 12000
     jobs = [aclhist.make_history(rng, t, WEIGHTS, nops=rng.randint(2, 8)) for t in range(1, n + 1)]
     aclhist.fill_permutations(rng, jobs)
